@@ -162,6 +162,7 @@ def run(ctx):
                 ctx.violation('the gaze pixel is blurred (lod %g): %s -> %s' % (float(lod[gy, gx]), img[0, :, gy, gx].tolist(), out[0, :, gy, gx].tolist()),
                               rec, {'fn': 'blur', 'what': 'gaze_pixel'})
 
+    __import__('harness.props.genfoveation', fromlist=['x']).check_generated_foveation(ctx)   # regenerated definitions vs /repo
 
 def replay(ctx, rep):
     from odak.learn.perception.spatial_steerable_pyramid import pad_image_for_pyramid
